@@ -9,7 +9,8 @@ FIXES = [('90efd8b','C03','P1 layout bytes alias pooled buffer'), ('0c85171','C1
  ('dc33199','C01','P4 equal lower bounds get empty range'), ('0385022','C15','P5 nil deref for logger kinds without refs'), ('0385022','C01','P5'), ('371451a','C05','P6 rolling logger: no layout, inner async never started'),
  ('371451a','C01','P6'), ('4752105','C16','P7 unbound handle / stale bindings after Destroy'), ('1e10e30','C08','P8 GetFileLine W<3 panics'), ('dde5971','C07','P9 bare NaN/Inf in JSON'),
  ('41037af','C11','P10 FastCaller skip off by one'), ('b81be82','C14','P11 retention prefix-only match'), ('8c7546d','C17','P12a strconv.Unquote rejects \\/ and raw newlines'),
- ('f57f549','C17','P12b unbounded syntax-error accumulation'), ('d14f145','C15','P13 numeric attributes not range-checked'), ('62ce6b7','C01','P15 non-separating rolling logger ignores upper bound above MAX')]
+ ('f57f549','C17','P12b unbounded syntax-error accumulation'), ('d14f145','C15','P13 numeric attributes not range-checked'), ('62ce6b7','C01','P15 non-separating rolling logger ignores upper bound above MAX'),
+ ('0123ed9','C13','P14a writer overtaken by two rotations loses its line'), ('6746979','C05','P14b rotation overtaken by the next one leaks a descriptor')]
 def run(src, pid):
     p = subprocess.run(['./mut.sh', src, pid], capture_output=True, text=True)
     keys = re.findall(r'^\s+key: (.*)$', p.stdout, re.M)
